@@ -354,7 +354,7 @@ class SymExec:
             st.env[target.id] = v
         elif isinstance(target, (ast.Tuple, ast.List)):
             for i, el in enumerate(target.elts):
-                self.bind_target(el, ("item", v, i), st)
+                self.bind_target(el, v[1][i] if v[0] in ("tuple", "list") and len(v[1]) == len(target.elts) and not any(isinstance(x, ast.Starred) for x in target.elts) else ("item", v, i), st)
         elif isinstance(target, ast.Starred):
             self.bind_target(target.value, ("unknown", "starred"), st)
 
@@ -849,9 +849,9 @@ class SymExec:
             return self.flatten(args[0])
         return None
 
-    def compress(self, data: Term, selectors: Term) -> Term | None:
-        """`compress(data, selectors)` as the comprehension over the common walk: `compress(d, (f(v) for v in d.values()))` is
-        `(k for k, v in d.items() if f(v))`; `compress(xs, (f(x) for x in xs))` is `(x for x in xs if f(x))`."""
+    def aligned(self, data: Term, selectors: Term):
+        """(iterable, element of data, element of selectors, base) when both walk the same collection in step: `d` / `d.keys()` next
+        to a comprehension over `d.values()` / `d.items()` / `d`, or `xs` next to a comprehension over `xs`."""
 
         def unwrap(t: Term) -> Term:
             while t[0] == "call" and isinstance(t[1], str) and t[1] in ("list", "tuple", "iter") and len(t[2]) == 1:
@@ -861,16 +861,36 @@ class SymExec:
         data, sel = unwrap(data), unwrap(selectors)
         if data[0] == "mcall" and data[2] == "keys" and not data[3]:
             data = data[1]
+        if sel == ("mcall", data, "values", ()):  # the values themselves, in step with the keys
+            bv = ("bv", self.binders)
+            return ("mcall", data, "items", ()), ("item", bv, 0), ("item", bv, 1), self.binders
         if sel[0] != "comp" or sel[1] not in ("gen", "list") or len(sel[3]) != 1 or sel[3][0][1]:
             return None
         it, bv, elt, base = unwrap(sel[3][0][0]), ("bv", sel[4]), sel[2], sel[4]
         if it == ("mcall", data, "values", ()):
-            return ("comp", "gen", ("item", bv, 0), ((("mcall", data, "items", ()), (subst(elt, bv, ("item", bv, 1)),)),), base)
+            return ("mcall", data, "items", ()), ("item", bv, 0), subst(elt, bv, ("item", bv, 1)), base
         if it == ("mcall", data, "items", ()):
-            return ("comp", "gen", ("item", bv, 0), ((it, (elt,)),), base)
+            return it, ("item", bv, 0), elt, base
         if it == data or it == ("mcall", data, "keys", ()):
-            return ("comp", "gen", bv, ((it, (elt,)),), base)
+            return it, bv, elt, base
         return None
+
+    def compress(self, data: Term, selectors: Term) -> Term | None:
+        """`compress(d, (f(v) for v in d.values()))` is `(k for k, v in d.items() if f(v))`; `compress(xs, (f(x) for x in xs))` is
+        `(x for x in xs if f(x))`."""
+        al = self.aligned(data, selectors)
+        if al is None:
+            return None
+        it, d_elt, s_elt, base = al
+        return ("comp", "gen", d_elt, ((it, (s_elt,)),), base)
+
+    def zip2(self, data: Term, other: Term) -> Term | None:
+        """`zip(d, (f(v) for v in d.values()))` is `((k, f(v)) for k, v in d.items())`."""
+        al = self.aligned(data, other)
+        if al is None:
+            return None
+        it, d_elt, s_elt, base = al
+        return ("comp", "gen", ("tuple", (d_elt, s_elt)), ((it, ()),), base)
 
     def flatten(self, x: Term, kind: str = "gen") -> Term:
         """`(e for xs in x for e in xs)`; when x is itself a comprehension its generators are continued."""
@@ -914,6 +934,10 @@ class SymExec:
             return ({"frozenset": "set"}.get(name, name), ())
         if name == "bool" and len(args) == 1:
             return ("call", "bool", args)
+        if name == "zip" and len(args) == 2 and not kws:
+            z = self.zip2(args[0], args[1])
+            if z is not None:
+                return z
         if name == "sum" and len(args) == 2 and args[1] == ("list", ()) and not kws:
             return self.flatten(args[0], "list")  # `sum(xss, [])` concatenates the lists
         if name == "getattr" and len(args) in (2, 3) and not kws:
@@ -1133,14 +1157,11 @@ def phi_leaves(t: Term, conds: tuple = ()):
 
 
 def _setdefault_of_fresh(a: ast.expr, b: ast.expr, ta: Term, tb: Term):
-    """(key, mapping) when one side is `<mapping>.setdefault(key, NAME)` and the other the same NAME, bound to an object created by an
-    expression of the running call (display, comprehension, constructor): its identity is new, so it cannot be a stored value."""
-    for call, name, tc, tn in ((a, b, ta, tb), (b, a, tb, ta)):
-        if isinstance(call, ast.NamedExpr):
-            call = call.value
-        if not (isinstance(call, ast.Call) and isinstance(call.func, ast.Attribute) and call.func.attr == "setdefault" and len(call.args) == 2 and not call.keywords):
-            continue
-        if not (isinstance(name, ast.Name) and isinstance(call.args[1], ast.Name) and call.args[1].id == name.id):
+    """(key, mapping) when one side is (a variable holding) `<mapping>.setdefault(key, NEW)` and the other side the variable NEW, bound
+    to an object created by an expression of the running call (display, comprehension, constructor): its identity is new, so it
+    cannot be a value that was stored before."""
+    for name, tc, tn in ((b, ta, tb), (a, tb, ta)):
+        if not isinstance(name, ast.Name):
             continue
         if tc[0] == "mcall" and tc[2] == "setdefault" and len(tc[3]) == 2 and tc[3][1] == tn and (tn[0] in ("list", "dict", "set", "new", "obj") or (tn[0] == "comp" and tn[1] != "gen")):
             return tc[3][0], tc[1]
